@@ -146,3 +146,93 @@ def term_of(c, p):
 def native_term(c, p):
     """native histories are judged by the same executable properties; there is no schedule, so no model re-run (fuel 0)"""
     return '(PC %s 0%%nat [] [] %s %s %d %d 0 0 0)' % (cfg_coq(c), rows_coq(p['log']), dv.zlit(p['ret']), p['live'], 0 if p['reuse'] == 1 else 1)
+
+
+# ------------------------------------------------------------------------------------------------ domains (mirror PipelineModel.v)
+def ninst(c):
+    gl = 1 if c['bare'] else c['glimit']
+    return max(1, min(c['numT'], max(1, gl)))
+
+
+def has_throw(c):
+    return c['gthrow'] >= 0 or any(s['throws'] for s in c['stages'])
+
+
+def hang_domain(c):
+    return has_throw(c) and ninst(c) > 1
+
+
+def escape_domain(c):
+    return has_throw(c) and c['plf'] < ninst(c) - 1
+
+
+def mk_case(numT, plf, nworkers, glimit, n, gthrow, stages, budget, sched, dep0=0, bare=0):
+    return {'numT': numT, 'plf': plf, 'nworkers': nworkers, 'dep0': dep0, 'bare': bare, 'glimit': glimit, 'n': n, 'gthrow': gthrow,
+            'stages': stages, 'budget': budget, 'sched': sched}
+
+
+def st(kind, limit, drops=(), throws=()):
+    return {'kind': kind, 'limit': limit, 'drops': list(drops), 'throws': list(throws)}
+
+
+# deterministic witnesses of the known findings (the first two are the runs of C29_refuted / C29_hang_refuted)
+WIT_LEAK = mk_case(1, 32, 1, 1, 2, -1, [st('s', 4, (), (1,))], 60, [0] * 60)
+WIT_HANG = mk_case(2, 64, 1, 2, 1, -1, [st('s', 1, (), (0,))], 60, [0] * 60)
+WIT_ESCAPE = mk_case(3, 0, 1, 3, 3, 0, [st('s', 1)], 60, [0] * 60)
+KEY_HANG = 'cancelled-generator-instance-never-signals-completion'
+KEY_ESCAPE = 'exception-escapes-execute-use-after-free'
+
+
+def run_lockstep(ctx, exe, cases):
+    """run the cases under vsched; returns (kept, terms): kept = [(case, parsed, raw)], terms = Coq pcase terms"""
+    outs = ls_common.run_cases(exe, [line_of(c) for c in cases])
+    kept, terms = [], []
+    for c, o in zip(cases, outs):
+        p = parse_out(o)
+        if p is None or 'error' in p:
+            if escape_domain(c):
+                continue          # undefined behaviour in the real code (known finding, replayed separately)
+            ctx.broken.append('lockstep harness output unreadable for %s: %s' % (line_of(c)[:200], (o or '')[:200]))
+            continue
+        kept.append((c, p, o))
+        terms.append(term_of(c, p))
+    return kept, terms
+
+
+def run_native(ctx, exe, cases, reps):
+    """native histories on real pools; returns (kept, terms), one entry per repetition"""
+    outs = ls_common.run_cases(exe, [native_line(c, 1) for c in cases for _ in range(reps)], jobs=4)
+    kept, terms = [], []
+    cs = [c for c in cases for _ in range(reps)]
+    for c, o in zip(cs, outs):
+        p = parse_native(o)
+        if p is None:
+            ctx.broken.append('native harness output unreadable for %s: %s' % (native_line(c, 1)[:200], (o or '')[:200]))
+            continue
+        kept.append((c, p, o))
+        terms.append(native_term(c, p))
+    return kept, terms
+
+
+def gen_native(r, exceptions=False):
+    c = gen_case(r, exceptions=exceptions, small=False)
+    c['numT'] = r.choice([0, 1, 2, 3, 4])
+    c['n'] = r.choice([0, 1, 5, 12, 30])
+    for s in c['stages']:
+        s['drops'] = [x for x in s['drops'] if x < c['n']]
+        s['throws'] = [x for x in s['throws'] if x < c['n']] if c['n'] else []
+    if exceptions:
+        c['glimit'] = 1          # one generator instance: outside the domain of the hang finding (a native hang costs the alarm)
+        if c['n'] and not any(s['throws'] for s in c['stages']) and c['gthrow'] < 0:
+            c['stages'][-1]['throws'] = [c['n'] // 2]
+        if c['gthrow'] > c['n']:
+            c['gthrow'] = c['n']
+    return c
+
+
+def site_hist(kept):
+    h = {}
+    for _, p, _ in kept:
+        for _, s in p['steps']:
+            h[SITES[s]] = h.get(SITES[s], 0) + 1
+    return h
